@@ -50,7 +50,7 @@ func init() {
 		Doc:      "bounded retry: every cycle through a call that can create a control file crosses a select on ctx.Done() — directly, or as the call of a helper that waits on such a select on every path and returns a non-nil error of those types when the context is done, the error being branched on — whose done edge leaves the loop and returns *TimeoutError/*ContextCanceled/*ContextDone; every context handed to a retrying callee by a Handler constructor is result #0 of GetTimeoutContext, which returns a context with a deadline (or an already cancelled one) on every path; ParseError and ConvertFileHandlerError map the timeout types to the lock-timeout error",
 		Controls: []string{"CtlRetryForever", "CtlRetryIgnoresWaitHelper"},
 		Run:      ruleLock5})
-	Register(&Rule{ID: "R-LOCK-6", Props: []string{"C09"}, Floor: 25,
+	Register(&Rule{ID: "R-LOCK-6", Props: []string{"C09", "C11"}, Floor: 25,
 		Doc:      "handler lifetime: the result of Container.CreateHandlerForUpdate/ForCreate is stored in FileInfo.Handler before any return and, in the creating function, closed only on paths that end in an error return; Container.Close/Commit/CloseWithErrors/CloseAll*, Handler.close/commit/closeWithErrors and closeIsolatedHandler are called only from the frozen list of commit/rollback/release functions and creators' error paths",
 		Controls: []string{"CtlForeignClose"},
 		Run:      ruleLock6})
